@@ -585,6 +585,9 @@ fn render(g: &mut CaState, idx: usize, mut resp: Resp, fault: &Option<Action>, p
 	if let Some(l) = &resp.location {
 		out.push_str(&format!("Location: {l}\r\n"));
 	}
+	if let (Some(ra), true) = (&g.plan.retry_after, matches!(pos, Pos::Authz(_) | Pos::AuthzPoll(_) | Pos::OrderReady | Pos::OrderValid | Pos::Finalize)) {
+		out.push_str(&format!("Retry-After: {ra}\r\n"));
+	}
 	out.push_str("Cache-Control: no-store\r\nConnection: close\r\n\r\n");
 	let mut bytes = out.into_bytes();
 	if partial {
